@@ -16,7 +16,10 @@ HOST, PORT = driver.SERVER_NAME, 70
 
 # extension -> (gopher type, strippable?)  (types per the shipped [GopherEntry] mapping)
 EXT = {".txt": ("0", True), ".gif": ("g", True), ".png": ("I", True), ".mp3": ("s", True), ".pdf": ("9", True),
-       ".qqq": ("0", False), "": ("0", False)}
+       ".qqq": ("0", False), "": ("0", False),
+       # short spellings of encoded archives (x.tgz = x.tar.gz): encoded files, stripped only under 'full'
+       ".tgz": ("9", "encoded"), ".taz": ("9", "encoded"), ".tbz2": ("9", "encoded"), ".txz": ("9", "encoded"),
+       ".tar": ("9", True)}
 WORDS = ["Alpha", "Bravo", "Charlie", "Delta", "Echo", "Foxtrot", "Golf", "Hotel", "India", "Juliet", "Kilo", "Lima",
          "Mike", "November", "Oscar", "Papa", "Quebec", "Romeo", "Sierra", "Tango"]
 
@@ -87,6 +90,9 @@ def umn_ref(spec: dict, extstrip: str, base: str) -> typing.Tuple[typing.List[st
             typ = "9"
             if extstrip == "full":
                 disp = n[:-len(f["ext"]) - 3]
+        elif strip == "encoded":
+            if extstrip == "full":
+                disp = n[:-len(f["ext"])]
         elif strip and extstrip in ("full", "nonencoded"):
             disp = n[:-len(f["ext"])]
         entries[n] = E(typ, disp, base + "/" + n, abstract=f.get("abstract"))
@@ -147,7 +153,7 @@ def gen_case(rng, idx: int):
     for _ in range(rng.randrange(0, 8)):
         ext = rng.choice(list(EXT))
         n = word() + ext
-        if ext and EXT[ext][1] and rng.random() < 0.2:
+        if ext and EXT[ext][1] is True and rng.random() < 0.2:
             # the extension text occurs twice: only the final one is the extension
             n = n + rng.choice([".old", ".v2", ""]) + ext
         f = {"ext": ext}
